@@ -1,4 +1,32 @@
 import broker_common as bc
-MANIFEST = {'text': 'in progress', 'note': 'in progress', 'technique': 'Coq proof over a hand-written model + differential correspondence check against the real code'}
+MANIFEST = {'text': ('Coq theorems (Props/C06.v, 15 theorems, all closed under the global context) about the executable broker model '
+                     'Model/Broker.v: (1) C06_structure / C06_structure_cluster / C06_tag_names_owner - for every chunk in every role position '
+                     'chunk_nodes yields exactly two masters and two replicas, each node\'s peer is on the other proxy with the opposite role and '
+                     'mutually consistent peer records, replicas carry no slots, and the owner of part p is node part_node_index p role on proxy '
+                     'part_proxy_index p role (the index tables of cluster_store_to_cluster and to_slot_range agree, so migration tags name the '
+                     'actual masters); (2) C06_takeover_ownership / C06_takeover_view / C06_replace_ownership - takeover_master for the first chunk holding the failed '
+                     'proxy changes only that chunk\'s role and mm_epoch fields: stable slots, range lists, directions, positions, node and proxy '
+                     'addresses of every chunk are unchanged, every part owned on the failed proxy is owned afterwards by the old owner\'s '
+                     'replication peer on the partner proxy, every other part keeps owner node and proxy, no node on the failed proxy of that '
+                     'chunk is master, and the same owner statement holds across the whole of replace_failed_proxy including the replacement '
+                     'loop; (3) C06_reissue - every entry list is mapped through reepoch_peers(moved positions): all entries of moved '
+                     'parts get the new epoch, both parts when the chunk already had both masters on the failing proxy (the fixed defect), under '
+                     'well-placed twin entries (mig_wf) every entry anywhere touching a moved part gets the new epoch, and mig_wf (equal metas of '
+                     'out/in twins) is preserved; (4) C06_idempotent* - a second takeover / replace_failed_proxy for the same address changes '
+                     'neither roles nor migration entries of any cluster; (5) C06_never_allocate_failed / C06_allocators_free - for every op '
+                     'except ORestore a proxy that is in a cluster afterwards was in a cluster before or satisfied is_free (no cluster, not in '
+                     'st_failed, no entry in st_failures); (6) C06_epoch_newer* - replace_failed_proxy re-issues with st_epoch+1, strictly greater '
+                     'than every stored migration epoch under the invariant store_epochs_le, which replace_failed_proxy preserves. '
+                     'Correspondence run (broker_common.standard_run): corpus scenarios + seeded random operation histories with a random failing '
+                     'proxy at random points (before/during/after migrations, repeated calls, with/without spares, ordered mode); after every '
+                     'operation the canonical store text and all cluster/proxy views under migration limits 0,1,2 of the real MetaStore and of '
+                     'the extracted model are compared, and the C06/C06epoch monitors of harness/broker/src/mon.rs are evaluated on the real views.'),
+            'note': ('Trusted base: the hand-written model Model/Broker.v (validated only differentially), extraction, the harness and its '
+                     'monitors, the oracle for hash-order dependent allocator choices. Partial / not proved: store_epochs_le and mig_wf are stated '
+                     'as hypotheses/invariants and proved preserved by replace_failed_proxy / takeover_master only, not for all reachable stores '
+                     '(migrate_slots, commit_migration etc. are not covered here); theorems 2-3 are about takeover_master on the stored cluster '
+                     '(node view via chunk_nodes), not composed with limit_migration; ORestore is excluded from C06_never_allocate_failed (it installs an arbitrary snapshot); "partner is healthy" is not '
+                     'a model notion - the theorems hold regardless, the statement about no master on a failed proxy is per failing chunk.'),
+            'technique': 'Coq proof over a hand-written model + differential correspondence check against the real code'}
 def run(chk): bc.standard_run(chk, 'C06')
 def replay(data): return bc.replay('C06', data)
